@@ -240,6 +240,29 @@ def r5(ctx):
     f = ctx.fn(repo.func(RESP + ".start_response"))
     g = f.cfg
     EXC = f.params[3]
+    # PEP 3333: a second call with exc_info (head not sent yet) REPLACES the stored headers: everything process_headers
+    # accumulates must be reset on that path
+    ph = [n for c in calls_to(repo, f, RESP + ".process_headers") for n in nodes_with(f, c)]
+    fp = repo.func(RESP + ".process_headers")
+    accumulated = set()
+    for x in walk_own(fp.node):
+        if isinstance(x, ast.Call) and isinstance(x.func, ast.Attribute) and x.func.attr in ("append", "extend") and isinstance(x.func.value, ast.Attribute) and tail(x.func.value.value) == "self":
+            accumulated.add(x.func.value.attr)
+        if isinstance(x, ast.Assign):
+            for t in x.targets:
+                if isinstance(t, ast.Attribute) and tail(t.value) == "self":
+                    accumulated.add(t.attr)
+    ctx.need({"headers", "response_length"} <= accumulated, "C09.R5: process_headers no longer accumulates headers/response_length")
+
+    def second_call(e):
+        return +1 if isinstance(e, ast.Name) and e.id == EXC else None      # false edge: first call
+    for fld in sorted(accumulated):
+        resets = [s for s in g.stmts(ast.Assign) if any(isinstance(t, ast.Attribute) and t.attr == fld and tail(t.value) == "self" for t in s.ast.targets) and
+                  (isinstance(s.ast.value, ast.Constant) or (isinstance(s.ast.value, (ast.List, ast.Dict)) and not getattr(s.ast.value, "elts", getattr(s.ast.value, "keys", []))))]
+        p, hits = guard_check(f, ph, second_call, without_nodes=resets)
+        ctx.check("C09.R5", p is None, key(f, "replace-not-append|" + fld), site(f, ph[0]),
+                  "start_response(.., exc_info) before the head was sent reaches process_headers without resetting Response.%s: the error response keeps the first call's %s "
+                  "(PEP 3333: the new headers replace the stored ones)" % (fld, "header lines" if fld == "headers" else fld), "Response.%s reset on re-entry" % fld, path=p and g.fmt_path(p))
     stores = [n for n in g.stmts(ast.Assign) if any(isinstance(t, ast.Attribute) and t.attr == "status" for t in n.ast.targets)]
     ctx.need(stores, "C09.R5: start_response never stores the status")
     for exc in (None, ("T", "V", "TB")):
